@@ -371,7 +371,10 @@ public:
     template<typename T, int N>
     void read(T (&buf)[N])
     {
-        read(buf, N);
+        // a short read must not be taken for data (the FILE* device checks this as well)
+        io_error_if( read( buf, N ) < static_cast< std::size_t >( N )
+                   , "istream_device: file read error"
+                   );
     }
 
     /// Reads byte
